@@ -311,6 +311,42 @@ let judge _id (c : cursor) (r : cursor) : bool * string =
         c_nat "softmax_sample" (site ^ "::sampleAction") act
           (if k mod 2 = 0 then model_sample q m0 s else model_sample qs m1 s)) msamp;
     (not greedy, if greedy then "smx-T0" else if tsets <> [] then kind ^ "-setters" else kind)
+  | "msm" ->
+    let t = next_q c in
+    let s = next_int c in let a = next_int c in
+    let base = List.init s (fun _ -> List.init a (fun _ -> next_q c)) in
+    let offs = next_qs c in
+    let eps = next_q c in let _seed = next_int c in
+    let rows = List.map2 (fun row o -> shift o row) base offs in
+    List.iter require_sep rows;
+    let greedy = q_le (q_abs t) (q_of_ints 1 1000000) in
+    let site = "MDP::QSoftmaxPolicy" and gsite = "MDP::QGreedyPolicy" and esite = "MDP::EpsilonPolicy" in
+    let rd st = chunks a (next_qs_checked "softmax_dist" st r) in
+    let st = rd (site ^ "::getPolicy") in let sp = rd (site ^ "::getActionProbability") in
+    let gt = rd gsite in let gp = rd gsite in let et = rd esite in let ep = rd esite in
+    let samp = List.init s (fun _ -> let cands = next_nats r in let u = next_q r in let act = next_nat r in (cands, u, act)) in
+    if List.exists (fun x -> List.length x <> s) [st; sp; gt; gp; et; ep] then oracle_fail "softmax_dist" site "wrong number of rows";
+    (* O, state by state: every row a distribution, table == per-action queries, and the row of the
+       softmax table does not depend on where the row sits (it equals the row computed by the queries,
+       which use the row's own maximum) *)
+    List.iteri (fun i q ->
+        judge_softmax_row site t q (List.nth st i) (List.nth sp i);
+        judge_greedy_row false gsite q (List.nth gt i) (List.nth gp i);
+        o_dist "epsilon_mixture" (esite ^ "::getPolicy") false (List.nth et i) a;
+        o_agree "epsilon_mixture" esite (List.nth et i) (List.nth ep i);
+        (let (_, _, act) = List.nth samp i in o_support "softmax_sample_in_support" (site ^ "::sampleAction") (List.nth st i) act)) rows;
+    (* C: the per-row model on the shifted row and (row-shift invariance) on the base row *)
+    List.iteri (fun i q ->
+        corr_softmax_row site t q (List.nth st i) (List.nth sp i);
+        if not greedy then c_vec false "softmax_row_shift" (site ^ "::getPolicy") (List.nth st i) (softmax_policy ex_float t (List.nth base i));
+        corr_greedy_row false gsite q (List.nth gt i) (List.nth gp i);
+        let g = greedy_policy q in
+        c_vec false "eps_policy" (esite ^ "::getPolicy") (List.nth et i) (eps_policy eps g);
+        c_vec false "eps_prob" (esite ^ "::getActionProbability") (List.nth ep i) (List.map (fun p -> eps_prob eps (nat_of_int a) p) g);
+        (let ((cands, u, act)) = List.nth samp i in
+         c_nat "softmax_sample" (site ^ "::sampleAction") act
+           (if greedy then greedy_model_sample q cands else sample_prob (List.nth st i) u))) rows;
+    (s > 1, if greedy then "msm-T0" else "msm")
   | "ts" | "tsn" ->
     let _a = next_int c in
     let counts = next_nats r in
